@@ -59,8 +59,10 @@ CLAIMED = {
          "worker_count threads, all exited, nothing running, nothing enabled afterwards; a cycle makes the Kahn model raise and a completed sort is a "
          "topological order of all nodes (C07_terminates, C07_no_deadlock, C07_can_finish, C07_quiescent, C07_nothing_later, C07_cycle_rejected, "
          "C07_kahn_sound, C07_acyclic_first, C07_skeleton). C07_fine_terminates / C07_fine_no_deadlock: the same for the fine model in which the two "
-         "lock-protected blocks are five interleavable steps each (no lock-order deadlock, a holder can always proceed). The cooperative scheduler's "
-         "deadlock detector runs on every controlled schedule.", "4/C07"),
+         "lock-protected blocks are five interleavable steps each (no lock-order deadlock, a holder can always proceed). C07_no_lost_wakeup / "
+         "C07_sleepers_do_not_act / C07_q_terminates / C07_q_can_finish: the same for the wake-up model in which threads sleep inside Queue.get / Queue.join "
+         "and only put's notify() and the last task_done's notify_all() wake anybody (real sleeps and wake-ups are replayed through it). The cooperative "
+         "scheduler's deadlock detector runs on every controlled schedule.", "4/C07"),
  "C08": ("proof", "Lean 4 proof (Good preserved by every prefix of every history, no ordering assumption; Good in every reachable state of the run) + cut injection at random events",
          "Whatever subset of writes completed before a cut, in whatever order, Good holds (C08_cut, C08_every_prefix, C08_fault); the next complete run is "
          "correct (C08_next_run_correct); completed writes whose upstream was settled are not out of date afterwards (C08_no_redo). C08_end_to_end_cut / "
